@@ -320,7 +320,13 @@ def _dfs_iter_tree(
     # An array is a leaf, its truth value is ambiguous with multiple elements.
     if np.size(data):
       yield Key().SELF
-  elif data:
+  elif data is not None and (
+      data
+      or isinstance(data, (str, bytes))
+      or not isinstance(data, (Mapping, Sequence))
+  ):
+    # A falsy leaf, e.g., 0 or '', is a leaf like any other; only None and an
+    # empty container have no leaves.
     yield Key().SELF
 
 
